@@ -128,9 +128,15 @@ Proof. exact TieCoerce.coercion_dispatch. Qed.
 Print Assumptions coercion_dispatch.
 
 Theorem equality_dispatch :
-  forall k : kind, table_or_default (kind_go k) go_equality_fn = Some (eq_fn_of_class (sclass_of k)).
+  forall k1 k2 : kind,
+  ostr_eqb (table_or_default (kind_go k1) go_equality_fn) (table_or_default (kind_go k2) go_equality_fn) = sclass_eqb (sclass_of k1) (sclass_of k2).
 Proof. exact TieCoerce.equality_dispatch. Qed.
 Print Assumptions equality_dispatch.
+
+Theorem equality_nil_for_non_scalars :
+  forall k : kind, ostr_eqb (table_or_default (kind_go k) go_equality_fn) (Some "nil") = sclass_eqb (sclass_of k) SNone.
+Proof. exact TieCoerce.equality_nil_for_non_scalars. Qed.
+Print Assumptions equality_nil_for_non_scalars.
 
 Theorem coerce_calls :
   assoc "CoerceInt64" go_coerce_calls = Some ("strconv.ParseInt", [0; 64]) /\
